@@ -122,7 +122,10 @@ class Gen:
             return ['list', self.ty(depth - 1), self.bound(1, 33) if r.random() < 0.85 else r.choice([0, 2**10, 2**40])]
         if k == 'cont':
             n = r.choice([1, 1, 2, 2, 3, 3, 4, 5, 7, 8, 9])
-            return ['cont'] + [self.ty(depth - 1) for _ in range(n)]
+            fs = [self.ty(depth - 1) for _ in range(n)]
+            if n >= 2 and r.random() < 0.3:
+                fs[r.randrange(n)] = fs[r.randrange(n)]      # two fields of the same type
+            return ['cont'] + fs
         if k == 'union':
             n = r.choice([1, 2, 2, 3, 4])
             opts = [self.ty(depth - 1) for _ in range(n)]
@@ -288,7 +291,11 @@ class Gen:
         if k == 'bv':
             return ['bv', self.bound()]
         if k == 'cont':
-            return ['cont'] + [self.ty(depth - 1) for _ in range(r.choice([1, 2, 3, 4, 5, 8, 9]))]
+            fs = [self.ty(depth - 1) for _ in range(r.choice([1, 2, 3, 4, 5, 8, 9]))]
+            if len(fs) >= 2 and r.random() < 0.4:
+                comp = [f for f in fs if not is_basic(f)]
+                fs[r.randrange(len(fs))] = r.choice(comp) if comp else fs[0]
+            return ['cont'] + fs
         if k == 'union':
             opts = [self.ty(depth - 1) for _ in range(r.choice([1, 2, 3, 4]))]
             if len(opts) >= 2 and r.random() < 0.3:
@@ -341,7 +348,7 @@ class Gen:
                     ops.append(['sets', i, ['s'] + vals])
                     cur = cur[:1 + i] + vals + cur[1 + i + kk:]
                 continue
-            if k == 'cont' and r.random() < 0.12:
+            if k == 'cont' and r.random() < 0.3:
                 same = [(i, j) for i in range(len(t) - 1) for j in range(len(t) - 1)
                         if i != j and show(t[1 + i]) == show(t[1 + j]) and not is_basic(t[1 + i])]
                 if same:
